@@ -59,7 +59,7 @@ def _eval(case):
             os.chdir(proj.path())
             try:
                 for (xx, ext) in case["configs"]:
-                    kw = sc.kw_for(("G", case.get("fex", ("*__pycache__*",))), xx, None, ext)
+                    kw = sc.kw_for(("G", case.get("fex", ("*__pycache__*",))), xx, case.get("lim"), ext)
                     try:
                         res.append(sc.snapshot_str(*graph_snapshot(get_evaluable_architecture(root, mp, **kw))))
                     except Exception as e:  # noqa: BLE001
@@ -68,7 +68,7 @@ def _eval(case):
                 os.chdir(cwd)
             return res, base
         for (xx, ext) in case["configs"]:
-            kw = sc.kw_for(("G", case.get("fex", ("*__pycache__*",))), xx, None, ext)
+            kw = sc.kw_for(("G", case.get("fex", ("*__pycache__*",))), xx, case.get("lim"), ext)
             if case.get("explicit_empty") and not xx and ext[1]:
                 # the other kind of external pattern passed explicitly as an empty tuple: it says nothing and changes nothing
                 kw["regex_external_exclusions" if ext[0] == "G" else "external_exclusions"] = ()
@@ -83,7 +83,7 @@ def judge(ctx, stream, cases):
     lines = []
     for case, (res, base) in zip(cases, out):
         for (xx, ext) in case["configs"]:
-            lines.append(sc.model_scan(base, case["tree"], case["root"], case["mp"], exclusions=("G", case.get("fex", ("*__pycache__*",))), exclude_external=xx, ext=ext))
+            lines.append(sc.model_scan(base, case["tree"], case["root"], case["mp"], exclusions=("G", case.get("fex", ("*__pycache__*",))), exclude_external=xx, lim=case.get("lim"), ext=ext))
     ans = run_driver(lines)
     k = 0
     for case, (res, base) in zip(cases, out):
@@ -134,6 +134,11 @@ def judge(ctx, stream, cases):
 
                     keep = {(u, e) for (u, e) in exts if not excluded(e)}
                     want_nodes = {".".join(e.split(".")[:i]) for _, e in keep for i in range(1, e.count(".") + 2)}
+                    if case.get("lim") is not None:
+                        # under a level limit every name - library names too - is truncated to lim + 1 components
+                        t = lambda n: ".".join(n.split(".")[: case["lim"] + 1])  # noqa: E731
+                        keep = {(t(u), t(e)) for (u, e) in keep if t(u) != t(e)}
+                        want_nodes = {t(n) for n in want_nodes}
                     if ext_imps != keep or ext_nodes != want_nodes:
                         bad = (f"external part differs: imports {sorted(ext_imps ^ keep)[:5]}, modules {sorted(ext_nodes ^ want_nodes)[:5]}")
             if bad:
@@ -173,6 +178,8 @@ def stream_cases(ctx: Ctx, s, n, rng):
                 r = (rng.choice(["(?i)os$", "(?i)ext"]), rng.choice(["extra", r"ext\.lib"]))
             configs.append((False, ("R", r)))
             cases.append({"tree": tree, "root": "proj", "mp": mp, "configs": configs, "relative": rng.random() < 0.25, "explicit_empty": rng.random() < 0.3,
+                          # the same level limit in every configuration of the case (module_path = root_path there)
+                          "lim": rng.randint(0, 2) if mp == "proj" and rng.random() < 0.25 else None,
                           # a FILE exclusion pattern that can only match dotted library names (no path contains such text): it concerns
                           # files and directories, the external part of the architecture does not change
                           "fex": ("*__pycache__*", rng.choice(["*ext.lib*", "*os.pa*", "*b.cd*", "*j_ext.m*"])) if rng.random() < 0.3 else ("*__pycache__*",)})
